@@ -1022,6 +1022,111 @@ def compare_views(ctx, rep, obs, ans):
             ctx.disagree(f"Deribit hourly row: impl {obs['hour'][:6]} model {got[:6]}", rep)
 
 
+# ------------------------------------------------------------------------------------------ E-7: initialize(), THEN the reset; the list handed back
+def gen_rerun_case(rng):
+    """a strategy object that builds all its trigger objects once: `given` are in strategy.triggers when run() is called, `late` are appended by
+    initialize() on every run (in place).  Two runs with fresh Actuators over the same one-market minute frame."""
+    n, start = rng.randint(3, 14), 3600 * rng.randint(0, 5)
+
+    def spec(i):
+        k = rng.choice(("period", "period", "periods", "atTime", "range"))
+        sp = {"k": k, "kw": "{}", "id": i}
+        if k == "period":
+            sp.update(d=60 * rng.randint(1, 4), imm=rng.random() < 0.5, pend=0)
+        elif k == "periods":
+            sp.update(ds=[60 * rng.randint(1, 4) for _ in range(rng.randint(1, 2))], imm=rng.random() < 0.5, pend=0)
+        elif k == "atTime":
+            sp.update(s=start + 60 * rng.randint(0, n))
+        else:
+            a = start + 60 * rng.randint(0, n)
+            sp.update(s=a, e=a + 60 * rng.randint(0, 4))
+        return sp
+    ng = rng.randint(0, 2)
+    return {"rerun_order": True, "n": n, "start": start, "given": [spec(i) for i in range(ng)], "late": [spec(ng + j) for j in range(rng.randint(1, 3))]}
+
+
+def run_rerun_impl(case):
+    cl.setup()
+    import c18
+    from demeter import Strategy
+    times = [case["start"] + 60 * i for i in range(case["n"])]
+    fires = []
+
+    def mk_do(i):
+        return lambda snapshot, **kw: fires.append([cl.sec(snapshot.timestamp), i])
+    given = [c18.construct(sp, mk_do(sp["id"])) for sp in case["given"]]
+    late = [c18.construct(sp, mk_do(sp["id"])) for sp in case["late"]]
+    ident = {id(t): sp["id"] for t, sp in zip(given + late, case["given"] + case["late"])}
+
+    class S(Strategy):
+        def initialize(self):
+            self.triggers.extend(late)          # the same objects on every run, in whatever state the previous run left them
+
+    st = S()
+    st.triggers.extend(given)
+    out = []
+    for _ in range(2):
+        a, _ms, _rec = cl.build([("m0", times, False)], times)
+        a.strategy = st
+        del fires[:]
+        err = None
+        try:
+            a.run(print_result=False)
+        except Exception as e:  # noqa: BLE001
+            err = type(e).__name__
+        out.append({"fires": [list(f) for f in fires], "err": err, "after": [ident.get(id(t), -1) for t in st.triggers]})
+    return times, out
+
+
+def check_rerun_order(ctx: Ctx, case, reqs):
+    times, out = run_rerun_impl(case)
+    rep = dict(case)
+    for o in out:
+        if o["err"] is not None:
+            ctx.violate(f"run:rerun-order:{o['err']}", f"a run with well-formed triggers {case['given']} + {case['late']} raised {o['err']}", rep)
+            return
+    # oracle (no model): the second run of the same strategy object reproduces the first; the list handed back is the list found
+    if out[0]["fires"] != out[1]["fires"]:
+        d = first_diff(out[0]["fires"], out[1]["fires"])
+        ctx.violate("rerun-differs:rerun-order:triggers", f"same strategy object (triggers built once: {case['given']} installed before run(), {case['late']} "
+                    f"appended by initialize()), fresh Actuator, same {case['n']} one-minute bars: trigger call {d} is {out[0]['fires'][d:d + 1]} in the first "
+                    f"run and {out[1]['fires'][d:d + 1]} in the second", rep)
+    want = [sp["id"] for sp in case["given"]]
+    for which, o in zip(("first", "second"), out):
+        if o["after"] != want:
+            ctx.violate("rerun-differs:rerun-order:trigger-list", f"strategy.triggers holds the objects {o['after']} after the {which} run, {want} before it "
+                        f"(initialize() appends {[sp['id'] for sp in case['late']]})", rep)
+            break
+
+    def js(sp):
+        return {k: ([str(x) for x in v] if isinstance(v, list) else str(v) if isinstance(v, int) and not isinstance(v, bool) else v) for k, v in sp.items()}
+    req = {"fn": "run_g2", "markets": [{"idx": [str(t) for t in times], "open": False}], "prices": [str(t) for t in times], "delta": "60",
+           "resample": False, "specs": [js(sp) for sp in case["given"]], "script": {"init": [["tadd", js(sp)] for sp in case["late"]]}}
+    reqs.append((rep, {"rerun_order": out, "want": want}, req))
+
+
+def compare_rerun_order(ctx, rep, obs, ans):
+    if "error" in ans:
+        ctx.disagree(f"driver error {ans['error']}", rep)
+        return
+    out = obs["rerun_order"]
+
+    def fires(r):
+        return [[int(e[1]), int(e[2])] for e in r["trace"] if e[0] == "fire"]
+    for which, o, r in (("first", out[0], ans), ("second", out[1], ans["second"])):
+        if fires(r) != o["fires"] or (r["err"] is not None):
+            d = first_diff(fires(r), o["fires"])
+            ctx.disagree(f"rerun order: trigger calls of the {which} run: impl {o['fires'][d:d + 2]} model runG2 {fires(r)[d:d + 2]} (call {d})", rep)
+            return
+    if [int(x) for x in ans["handed_back"]] != out[1]["after"]:
+        ctx.disagree(f"rerun order: strategy.triggers after the run: impl {out[1]['after']} model {ans['handed_back']}", rep)
+    tells = fires(ans["second_reset_before_init"]) != fires(ans["second"])
+    kinds = "+".join(sorted({sp["k"] for sp in rep["late"]}))
+    ctx.case(f"rerun-order:given{len(rep['given'])}:late-{kinds}:{'reset-before-init-would-differ' if tells else 'orders-agree'}")
+    if tells:
+        ctx.count("rerun_order_cases_that_distinguish_reset_before_and_after_initialize")
+
+
 def crafted_pairs():
     """pairs every run starts with (independent of the seed): situations the random stream reaches rarely"""
     import random
@@ -1083,17 +1188,31 @@ def run(ctx: Ctx):
     reqs = []
     for _ in range(ctx.scale(20, 300)):
         check_views(ctx, ctx.rng, reqs)
-    ctx.impl_traces = n * 3
+    n_rr = ctx.scale(40, 400)
+    for _ in range(n_rr):
+        check_rerun_order(ctx, gen_rerun_case(ctx.rng), reqs)
+    ctx.impl_traces = n * 3 + n_rr * 2
     if ctx.driver_ok and reqs:
         out = driver_json([r[2] for r in reqs], exe="driver_core")
         for (rep, obs, _), ans in zip(reqs, out):
-            compare_views(ctx, rep, obs, ans)
+            if "rerun_order" in obs:
+                compare_rerun_order(ctx, rep, obs, ans)
+            else:
+                compare_views(ctx, rep, obs, ans)
 
 
 def replay(ctx: Ctx, case) -> bool:
     sub = Ctx(ctx.prop, ctx.tier, ctx.seed, False)
     if case.get("views"):
         return True
+    if case.get("rerun_order"):
+        reqs = []
+        check_rerun_order(sub, case, reqs)
+        if ctx.driver_ok and reqs:
+            compare_rerun_order(sub, reqs[0][0], reqs[0][1], driver_json([reqs[0][2]], exe="driver_core")[0])
+        for v in sub.violations:
+            print("  ", v["key"], v["what"])
+        return not sub.violations and not getattr(sub, "disagreements", [])
     check_pair(sub, case)
     for v in sub.violations:
         print("  ", v["key"], v["what"])
